@@ -3,33 +3,42 @@
 PROP = {'modules': ['AmVerif.Props.C04'],
  'engines': [{'name': 'src', 'quick': 360, 'thorough': 4000}],
  'rule': 'cases 0-199 are the bounded-exhaustive slice: the 20 closed subsets of {a.x, a, d/, d/b.x, d/e/} (empty tree included) x {FileSystem, '
-         'Embedded, (Zip, Tar) x (every directory has a member, none has) x (directories before / after their content)}, each probed on every node '
-         'plus a fixed list of absent / wrong-kind ids; later cases: random trees (depth <= 4, unicode / spaces / empty extension / one stem with '
-         'several extensions / file and directory sharing an id / 200-byte names) through one source kind each (rotating), archive members in sorted '
-         '/ reversed / files-first / shuffled order, all / none / some directory members, optional ./ prefix, stored or deflated, in memory or file '
-         'backed, GNU long names, 1/8 with malformed members (.., absolute, dotted directory, duplicates, hidden, trailing dot); probes: read / '
-         'read_dir / exists of every node, absent ids (wrong extension, directory as file, file as directory, below a file, empty components), '
-         're-read of every listed entry, 1/6 with 4 (thorough 8) concurrent readers; a case is non-trivial when at least one probe ran; distinct = '
-         'distinct op transcripts',
+         'Embedded, (Zip, Tar) x (every directory has a member, only the directories no other member lies in or below) x (directories before / '
+         'after their content)}, each probed on every node plus a fixed list of absent / wrong-kind ids; later cases: random trees (depth <= 4, '
+         'unicode / spaces / empty extension / one stem with several extensions / file and directory sharing an id / 200-byte names) through one '
+         'source kind each (rotating), archive members in sorted / reversed / files-first / shuffled order, all / as few as possible / some '
+         'directory members, optional ./ prefix, stored or deflated, in memory or file backed, GNU long names, 1/8 with malformed members (.., '
+         'absolute, dotted directory, duplicates, hidden, trailing dot); probes: read / read_dir / exists of every node, absent ids (wrong '
+         'extension, directory as file, file as directory, below a file, empty components), re-read of every listed entry, 1/6 with 4 (thorough 8) '
+         'concurrent readers; a case is non-trivial when at least one probe ran; distinct = distinct op transcripts',
  'assumptions': ["tree names are valid: non-empty, no '.', no '/', no NUL; extensions contain no '.'; an extension-less file and a directory do not "
                  'share a name',
-                 'probe ids for the oracle are well formed (no empty component); ids with empty components are compared against the model only',
+                 'an archive of a tree contains the tree: a directory without a member of its own is on the path of some member (a file in or below '
+                 'it, or the member of a directory below it) — an empty directory nothing mentions is not in the archive',
+                 'probe ids for the oracle and for C04_fs are well formed (no empty component); ids with empty components are compared against the '
+                 'model only (path_of_entry drops empty components: "d..b" is "d.b" for FileSystem)',
                  'no sibling <root>.<ext> of the FileSystem root exists (read("", ext) leaves the root)'],
- 'trusted': COMMON_TRUSTED + ['modelled, not verified: HashMap as a partial function, Vec as a list, Path::components / file_stem / extension (std) as splitSlash / splitExt, the '
- 'zip and tar container decoders (the model starts at the member list: path, kind, bytes), the OS file system as a map from paths to file / '
- 'directory nodes with ENOTDIR when a path goes through a file, IdBuilder as idPush / idPop',
+ 'trusted': COMMON_TRUSTED + ['modelled, not verified: HashMap as a partial function / association list, Vec as a list, Path::components / file_stem / extension (std) as '
+ 'splitSlash / splitExt, the zip and tar container decoders (the model starts at the member list: path, kind, bytes), the OS file system as a map '
+ 'from paths to file / directory nodes (is_file / is_dir / fs::read / fs::read_dir answer from it; going through a file is ENOTDIR), IdBuilder as '
+ 'idPush / idPop, DirEntry::parent_id as idPop',
  "the embed! macro's directory walk is modelled by its output tables only (RawEmbedded is built from the tree at run time by the harness)"]}
 
-META = {'text': "Theorems over the executable source models the driver runs: archive index = fold of an interpreter of register_file's effect skeleton "
-         '(skeletons of zip.rs and tar.rs extracted each run, proved equal to each other and to the interpreted one); for every valid tree and every '
-         "archive of it (any member order, optional ./) with a member per directory and a non-empty tree the archive view equals the tree's "
-         'specification view (read, read_dir up to order, exists) and is independent of member order; the full-strength statement is kept and '
-         "refuted by kernel-checked witnesses (F-C04: d/e/f.x without directory members; the empty archive); Embedded::from over the macro's tables "
-         'equals the specification; FileSystem view equals it except for kind confusion (refuted + partial); every listed entry is readable; reads '
-         'do not change the index. Unbounded in tree size, depth, contents and member order.',
+META = {'text': "Theorems over the executable source models the driver runs: archive index = root registration + fold of an interpreter of the effect "
+         'skeletons of register_file and register_dir (extracted from zip.rs and tar.rs each run, proved equal to each other and to the interpreted '
+         'ones, together with the root registration in create); FULL STRENGTH: for every valid tree and every archive of it (any member order, '
+         'optional ./, directories with or without a member of their own, the empty archive included) the archive view equals the tree\'s '
+         'specification view (read, read_dir up to order, exists) — C04_archive, by an invariant of the dirs map maintained by register_dir (each '
+         'directory registered with all its ancestors and listed exactly once in its parent); member order and redundant directory members are '
+         "irrelevant; Embedded::from over the macro's tables equals the specification; FULL STRENGTH on well-formed ids: the FileSystem view equals "
+         'it (read, read_dir with the same listing, exists of both kinds, NotFound for everything absent or of the wrong kind) — C04_fs, with the '
+         'kind tests of exists / read / read_dir extracted from filesystem.rs; all four sources agree (C04_sources_agree); every listed entry is '
+         'readable; reads do not change the index. Unbounded in tree size, depth, contents and member order.',
  'design_ref': 'DESIGN.md §6 C04',
  'note': 'Trusted: Lean kernel; amx skeleton extraction; HashMap/Path/zip/tar/OS modelled. Tie: Gen/Archive.lean regenerated each run (skeleton '
-         'equality by decide; the driver indexes with the extracted skeletons) and the src engine diffs read/read_dir/exists of the real FileSystem, '
-         'Zip, Tar, Embedded built from generated trees against the model, with the generated tree as independent oracle. Known failing classes on '
-         'the current tree: archive-implicit-dir-missing (F-C04), archive-empty-root-missing, fs-kind-confusion.',
+         'and kind-test equalities by decide; the driver indexes with the extracted skeletons and answers with the extracted kind tests) and the '
+         'src engine diffs read/read_dir/exists of the real FileSystem, Zip, Tar, Embedded built from generated trees against the model, with the '
+         'generated tree as independent oracle. The three defects the check reproduced on the unrepaired tree (archive-implicit-dir-missing = '
+         'F-C04, archive-empty-root-missing, fs-kind-confusion) are repaired (known_findings.json: fixed); their witnesses stay in corpus/C04 and '
+         'pass, and reverting any of the repairs breaks C04_register_skeleton / C04_fs_kind_tests and the oracle again.',
  'technique': 'Lean 4 proof over executable model + skeleton extraction + differential correspondence'}
